@@ -281,6 +281,18 @@ Proof.
   - apply app_inj_tail in Hl as [Hl Hc]. inversion Hc. apply comp_elem_inj in Hl. subst. reflexivity.
 Qed.
 
+(* ---------------------------------------------------------------- decoding is a function of the bytes decoded *)
+(* In the model a decode has no state to share: the result of the i-th decode of a sequence is the decode of the i-th
+   input alone, whatever is decoded before or after.  This is the obligation on the Go code that the model cannot
+   exhibit a violation of (a SigCovered wire sharing memory with a reused parsing context): the harness's
+   decode-sequence cases keep every returned object and compare/validate only after the last decode. *)
+Lemma read_data_seq_independent (pre post : list reader) r :
+  nth (length pre) (map read_data (pre ++ r :: post)) RErr = read_data r.
+Proof. rewrite map_app, app_nth2 by (rewrite map_length; lia). rewrite map_length, Nat.sub_diag. reflexivity. Qed.
+Lemma read_interest_seq_independent (sha256 : bytes -> bytes) (pre post : list reader) r :
+  nth (length pre) (map (read_interest sha256) (pre ++ r :: post)) RErr = read_interest sha256 r.
+Proof. rewrite map_app, app_nth2 by (rewrite map_length; lia). rewrite map_length, Nat.sub_diag. reflexivity. Qed.
+
 (* ---------------------------------------------------------------- covered bytes agree *)
 Lemma sig_covered_agree_data_thm sign nm cfg content sg si est e :
   data_siginfo sg = Ok (si, est) -> name_ok nm -> meta_wf (meta_of cfg) -> signer_ok sg -> data_fits nm cfg content si est ->
